@@ -828,17 +828,36 @@ func init() {
 				})
 				r.check(okP, "a parsed priority section is marked present", p.pos(fd.Pos()), "under FlagPriority: h.priority = true", "Headers.Deserialize no longer records that the frame carried a priority section: written out again the frame has lost it")
 			}
-			if fd := p.decl("(*Headers).Serialize"); fd != nil {
-				okPad := false
+			for _, sn := range []string{"(*Headers).Serialize", "(*Data).Serialize"} {
+				fd := p.decl(sn)
+				if fd == nil {
+					r.undecided(sn, "?", "no longer resolves")
+					continue
+				}
+				r.fn(sn)
+				okPad, nPad := true, 0
 				ast.Inspect(fd.Body, func(n ast.Node) bool {
 					ifs, ok := n.(*ast.IfStmt)
-					if ok && squash(p.text(ifs.Cond)) == "h.hasPadding" {
-						t := stmtTexts(p, ifs.Body.List)
-						okPad = len(t) == 2 && t[0] == "frh.SetFlags(frh.Flags().Add(FlagPadded))" && t[1] == "h.rawHeaders=http2utils.AddPadding(h.rawHeaders)"
+					if !ok || !strings.HasSuffix(squash(p.text(ifs.Cond)), ".hasPadding") {
+						return true
+					}
+					nPad++
+					flag, pad := false, false
+					for _, st := range ifs.Body.List {
+						t := squash(p.fullText(st))
+						if strings.Contains(t, ".SetFlags(") && strings.Contains(t, ".Flags().Add(FlagPadded))") {
+							flag = true
+						}
+						if as, isAs := st.(*ast.AssignStmt); isAs && len(as.Lhs) == 1 && len(as.Rhs) == 1 && squash(p.text(as.Rhs[0])) == "http2utils.AddPadding("+squash(p.text(as.Lhs[0]))+")" {
+							pad = true
+						}
+					}
+					if !flag || !pad {
+						okPad = false
 					}
 					return true
 				})
-				r.check(okPad, "padding asked for is flagged and added", p.pos(fd.Pos()), "if hasPadding { PADDED flag; AddPadding }", "Headers.Serialize no longer sets the PADDED flag together with adding the padding: one without the other is a frame the peer misreads")
+				r.check(okPad && nPad == 1, sn+": padding asked for is flagged and added", p.pos(fd.Pos()), "if hasPadding { PADDED flag added; x = AddPadding(x) }", sn+" no longer sets the PADDED flag together with adding the padding: one without the other is a frame the peer misreads")
 			}
 		},
 	})
